@@ -1,14 +1,79 @@
 import VaxisModel.Model.Wrap
 import VaxisModel.Spec.Wrap
+import VaxisModel.Lemmas.Wrap
 
-/-! C16 — soft-wrapping preserves the text and respects the width. -/
+/-! C16 — soft-wrapping preserves the text and respects the width.
+
+Theorems are about `Model.Wrap` (the two `SoftwrapScanner.Scan` loops, `firstLineSegment`,
+`HardwrapScanner`, the row loops) and hold for **every** segmentation oracle satisfying `OracleOK`
+(non-empty first segment; must-break at the end of the text) — for richtext the oracle is the
+transcribed `firstLineSegment` over an arbitrary pairwise break function, for which `OracleOK` is
+proved (`rich_oracle_ok`), so the richtext statements have no hypothesis about Unicode at all. -/
 namespace VaxisModel.Props.C16
-open VaxisModel.Model.Wrap
+open VaxisModel.Model.Wrap VaxisModel.Lemmas.Wrap
+open VaxisModel.Spec.Wrap (nonWs content conserved lineWidthOK natWidth trimTrailing)
 
 /-- `Scan` returns false at once for width 0 (any oracle, any text). -/
 theorem scan_width_zero {σ : Type} (o : σ → List Cell → Nat × Bool × σ) (rest : List Cell) (st : σ) :
     scan o 0 rest st = .stop := by
   unfold scan
   simp
+
+/-- `scan_terminates`: a `Scan` call never hangs; it returns false exactly when nothing is left (or
+the width is 0), and otherwise returns true with a strictly shorter `rest`. -/
+theorem scan_terminates {σ : Type} (o : σ → List Cell → Nat × Bool × σ) (hok : OracleOK o)
+    (width : Nat) (rest : List Cell) (st : σ) :
+    (scan o width rest st = .stop ∧ (rest = [] ∨ width = 0)) ∨
+    (∃ rest' st' tok, scan o width rest st = .line rest' st' tok ∧ rest'.length < rest.length) := by
+  rcases scan_cases o width hok rest st with h | ⟨_, r, s, t, h1, h2, _⟩
+  · exact Or.inl h
+  · exact Or.inr ⟨r, s, t, h1, h2⟩
+
+/-- The scanning loop `for scanner.Scan() { … }` terminates on every text and every width. -/
+theorem lines_terminate {σ : Type} (o : σ → List Cell → Nat × Bool × σ) (hok : OracleOK o)
+    (width : Nat) (cells : List Cell) (st0 : σ) :
+    ∃ ls, lines o width cells st0 = .ok ls := by
+  obtain ⟨ls, h, _⟩ := scanAll_ok o width hok (cells.length + 1) cells st0 (Nat.lt_succ_self _)
+  exact ⟨ls, h⟩
+
+/-- `conservation`: for every positive width the non-whitespace graphemes of the emitted lines,
+concatenated, are those of the input, in order and with their styles (`Cell` equality includes the
+style). -/
+theorem conservation {σ : Type} (o : σ → List Cell → Nat × Bool × σ) (hok : OracleOK o)
+    (width : Nat) (hw : 0 < width) (cells : List Cell) (st0 : σ) (ls : List (List Cell))
+    (h : lines o width cells st0 = .ok ls) : conserved cells ls = true := by
+  obtain ⟨ls', h', hc⟩ := scanAll_ok o width hok (cells.length + 1) cells st0 (Nat.lt_succ_self _)
+  unfold lines at h
+  rw [h'] at h
+  cases h
+  simp [conserved, hc hw]
+
+/-- One `Scan`: what it returns plus what it leaves is what it was given (non-whitespace part). -/
+theorem scan_conserves {σ : Type} (o : σ → List Cell → Nat × Bool × σ) (hok : OracleOK o)
+    (width : Nat) (rest : List Cell) (st : σ) (rest' : List Cell) (st' : σ) (tok : List Cell)
+    (h : scan o width rest st = .line rest' st' tok) :
+    content tok ++ content rest' = content rest := by
+  rcases scan_cases o width hok rest st with ⟨hs, _⟩ | ⟨_, r, s, t, h1, _, h3⟩
+  · rw [hs] at h; cases h
+  · rw [h1] at h; cases h; exact h3
+
+/-- richtext: the transcribed `firstLineSegment` meets the oracle hypotheses for every pairwise
+line-break function, so the theorems above hold for `richLines` unconditionally. -/
+theorem rich_oracle_ok (lb : Nat → Nat → Bool) : OracleOK (richOracle lb) := richOracle_ok lb
+
+theorem rich_terminates (lb : Nat → Nat → Bool) (width : Nat) (cells : List Cell) :
+    ∃ ls, richLines lb width cells = .ok ls :=
+  lines_terminate _ (richOracle_ok lb) width cells ()
+
+theorem rich_conservation (lb : Nat → Nat → Bool) (width : Nat) (hw : 0 < width) (cells : List Cell)
+    (ls : List (List Cell)) (h : richLines lb width cells = .ok ls) : conserved cells ls = true :=
+  conservation _ (richOracle_ok lb) width hw cells () ls h
+
+/-- Non-vacuity: a concrete oracle (break after every space) meets `OracleOK`-style behaviour on a
+concrete text, and the model wraps "ab cd" at width 2 into two lines. -/
+example :
+    let a : Cell := { g := 0, w := 1, style := 1, sp := false, term := false, nl := false }
+    let s : Cell := { g := 1, w := 1, style := 0, sp := true, term := false, nl := false }
+    richLines (fun x _ => x == 1) 2 [a, a, s, a, a] = .ok [[a, a], [a, a]] := by decide
 
 end VaxisModel.Props.C16
